@@ -5,6 +5,14 @@ part sweep   (asan256): operand sizes around the configured precision, buffer le
                         degenerate scalars, output lengths of the KDF family, short RSA buffers; every caller-owned
                         object is an exact-size heap block (red zones directly behind it); each case also runs under
                         two slack-poison patterns and must give identical results (never-written storage).
+                        The library context is a single object for the sanitizers, so stores that leave one of its members
+                        are watched separately: every case runs between two raw snapshots of the context (member table from
+                        shim/vf_x_C08.c) - calls that configure nothing must leave it unchanged (error state and generator
+                        state excepted), and the parameter-setting entry points (fp_prime_set_pairf/_pmers/_dense, the
+                        *_param_set identifiers, ep2_curve_set_twist, fb_poly_set_trino/_penta, rand_seed) are fed hostile
+                        caller-chosen parameters (dense / maximal-weight recodings, term counts around RLC_TERMS, zero,
+                        negative, over-long, identifiers outside the enumerations) and judged by member ownership, bounded
+                        length members, integer headers, an equivalent-history comparison and behavioural batteries.
 part fault   (dyn256) : ALLOC=DYNAMIC build with a countdown allocation-failure injector: for every recorded call the
                         1st..A-th allocation is failed in turn; accepted outcomes are an error or the correct result,
                         never a sanitizer report, a heap growth larger than the successful run (leaked temporaries)
@@ -28,6 +36,8 @@ RULE = ("sweep: enumerated boundary sizes x structured operands (random fill fro
         "operand/buffer is within one unit of a capacity or a failure is injected; distinct = distinct (function, "
         "sizes, operands, failure index)")
 ASSUMPTIONS = ["ASan red zones behind exact-size heap blocks and UBSan catch the accesses the property forbids on the executed paths",
+               "stores inside the library context (one object, no red zones between its members) are visible as byte differences "
+               "between raw snapshots of the context taken between calls; the member layout is exported from the real headers",
                "the ASan allocator statistics are exact for the single-threaded worker (leak monitor of the fault part)",
                "allocation failure is modelled as malloc/calloc/realloc returning NULL (posix_memalign: ENOMEM)"]
 
@@ -90,9 +100,41 @@ def run(ctx, part):
             # value disagreements belong to the other property; what the trampoline's own monitors see (a handler
             # chain left dangling by a return from inside a protected block, a sticky code that disagrees with the
             # handler) is exactly "the library remains usable afterwards" and stays a failure here
-            if str(key).endswith(("|handler-chain", "|sticky-code", "|library-unusable-afterwards")):
+            if str(key).endswith(("|handler-chain", "|sticky-code", "|library-unusable-afterwards")):   # (the context invariants below report through real_fail)
                 real_fail(key, detail)
         ctx.fail = sampler_fail
+        # invariants of the library context after every sampled case (the context has no red zones between its members):
+        # length members stay inside their tables, integer members keep the header core_init gave them
+        inv = {"cm": None, "ref": None, "n": 0}
+        real_end = ctx.end
+
+        def sampler_end():
+            real_end()
+            try:
+                if inv["cm"] is None:
+                    Rv = RT(ctx.cfg, init=False)
+                    Rv.ctx = Rv.S.vf_core_get()
+                    inv["cm"] = _CtxMon(Rv) if Rv.ctx else None
+                    if inv["cm"] is None:
+                        return
+                cm = inv["cm"]
+                if not cm.ok:
+                    return
+                cm.R.ctx = cm.R.S.vf_core_get()
+                if not cm.R.ctx:
+                    return
+                hdr = cm.headers()
+                if inv["ref"] is None:
+                    inv["ref"] = hdr
+                inv["n"] += 1
+                bad = cm.headers_bad(inv["ref"], hdr)
+                if bad:
+                    real_fail(str(ctx.cur_key) + "|" + bad[0], bad[1])
+                    inv["ref"] = hdr        # report a broken header once, not after every later case
+            except AttributeError:
+                inv["cm"] = False
+        if os.environ.get("VF_C08_NO_CTXINV") != "1":
+            ctx.end = sampler_end
         real_n = ctx.n
         ctx.n = lambda q, t=None: max(1, real_n(q, t) // (4 if ctx.quick else 2))
         ctx.default_budget = 300
@@ -101,6 +143,7 @@ def run(ctx, part):
         ctx.sample_phase = (ctx.seed + ctx.shard) % ctx.sample_every
         mod.run(ctx, sub)
         ctx.evaluations = max(ctx.evaluations, ctx.cases)
+        ctx.add("context_invariant_checks", inv["n"])
 
 
 # =========================================================================================== sweep
@@ -140,11 +183,24 @@ def run_sweep(ctx):
         r = R.call("bn_mul", c, a, b)
         return (not r.caught) and R.bn_val(c) == 0x1234567 * 0x89ABCDE
 
-    def guarded(key, desc, fn, nontrivial=True, budget=None):
+    CM = _CtxMon(R)
+
+    def guarded(key, desc, fn, nontrivial=True, budget=None, owners=("rand",)):
+        """owners: groups of context members the calls of this case may modify besides the error state (None: the case
+        judges the context itself).  Calls that configure nothing must leave every other member of the library context
+        byte-identical - the context is one object for the sanitizers, so this is the only view of a stray store in it."""
         if not ctx.begin(key, desc, nontrivial=nontrivial, budget=budget):
             return
         try:
+            before = CM.snap() if (CM.ok and owners is not None) else None
             fn()
+            if before is not None:
+                after = CM.snap()
+                if after != before:
+                    ch = [n for n in CM.changed(before, after) if CM.group[n] != "err" and CM.group[n] not in owners]
+                    ctx.check(not ch, ctx.cur_key + "|context-member-modified-by-a-call-that-configures-nothing", {"members": ch[:8]})
+                else:
+                    ctx.ok()
         except MonitorViolation as e:
             ctx.fail(ctx.cur_key + "|" + e.kind, e.detail)
         finally:
@@ -360,6 +416,11 @@ def run_sweep(ctx):
     def s3():
         scal = [0, 1, 2, 3, 1 << 7, (1 << 8) - 1, 1 << 64, (1 << 64) - 1, 1 << 200, (1 << 256) - 1, big(4, 3) << 130,
                 big(4, 3), big(8, 3), big(CAP // 2, 3)]
+        # hostile shapes (appended: the joint-sparse-form cases below index the list): densest recodings (alternating
+        # bits: every other digit of the non-adjacent form is non-zero), negative scalars, a scalar filling the precision
+        alt = int("55" * 32, 16)
+        hostile_shape = {alt: "max-naf-weight", alt << 1: "max-naf-weight", -big(4, 3): "negative", -alt: "negative", big(CAP, 0): "digits=CAP"}
+        scal += list(hostile_shape)
         for name in ("win", "slw", "naf", "reg"):
             for w in range(2, 9):
                 for kv in scal:
@@ -403,7 +464,7 @@ def run_sweep(ctx):
                             R.free(buf)
                             R.free(lenp)
                             ctx.check(canary(), ctx.cur_key + "|library-unusable-afterwards")
-                        cls = "zero" if kv == 0 else ("bits<w" if kv.bit_length() < w else ("low-zero-digits" if kv & ((1 << 64) - 1) == 0 else "general"))
+                        cls = hostile_shape.get(kv) or ("zero" if kv == 0 else ("bits<w" if kv.bit_length() < w else ("low-zero-digits" if kv & ((1 << 64) - 1) == 0 else "general")))
                         guarded("bn_rec_%s|%s|len=need%+d" % (name, cls, delta), [name, w, hx(kv), delta], f)
         # joint sparse form
         for kv in scal[:10]:
@@ -786,10 +847,606 @@ def run_sweep(ctx):
                             ctx.check(canary(), ctx.cur_key + "|library-unusable-afterwards")
                         guarded("%s|%s|pack=%s|all-lengths" % (wfn, ename, pack), [pname, deg, ename, pack], f)
 
-    for s in (s1, s2, s3, s4, s5, s6, s7, s8, s9):
-        s()
+    # ---------------------------------------------------------------- S10 parameter-setting entry points, hostile parameters
+    # The library context is ONE object for the sanitizers: an index that runs past an array member (the sparse forms
+    # par_sps[] / sps[], a table) lands in the neighbouring member without a red zone.  Every case therefore runs
+    # between two raw snapshots of the context (layout exported by shim/vf_x_C08.c) and is judged by
+    #  - ownership: only members of the groups the entry point configures (and the error state) may change,
+    #  - bounded members (par_len, sps_len, chain_len) stay inside their tables, bn members keep their header,
+    #  - equivalent history: what the call leaves outside the sparse form it owns equals either the state before the
+    #    call (nothing installed) or the state that installing the same modulus densely leaves (modulus installed),
+    #  - the defining equations of the getters when the call is accepted (modulus, sparse form sums to the parameter),
+    #  - usability: field arithmetic and conversions at the modulus the getter reports agree with the Python model,
+    #    and after re-selecting a built-in curve a scalar multiplication agrees with the reference curve.
+    def s10():
+        if not CM.ok:
+            ctx.note("context_monitor", "unavailable: " + CM.why)
+            return
+        from ..model.curves import is_probable_prime
+        TERMS = CM.terms
+        FPB = K["RLC_FP_BITS"]
+        FPD = K["RLC_FP_DIGS"]
+        FAM = dict((k, v) for k, v in R.EH.get("relic_ep.h", {}).items() if k.startswith("EP_") and k[3:] in
+                   ("K1", "SS2", "BN", "GMT8", "B12", "AFG16", "FM16", "K16", "K18", "FM18", "SG18", "B24", "B48", "SG54"))
+        HANDLED = ("BN", "B12", "AFG16", "FM16", "K16", "K18", "FM18", "SG18", "B24", "B48", "SG54")
+        ids = R.ep_param_ids()
+        bases = [ids[0]] + [(nm, pid) for nm, pid in ids if nm.startswith("BN_")][:1]
+        base_snap = {}
+        FPOWN = ("fp", "fp.par", "fp.sps", "fpx")
+        t_, u_ = R.bn_new(), R.bn_new()
+
+        def set_base(bi):
+            """establish (and cache as raw bytes) the state after selecting built-in curve bi from the initial state"""
+            nm, pid = bases[bi % len(bases)]
+            if nm not in base_snap:
+                R.call("ep_param_set", pid)
+                P = R.ep_params()
+                base_snap[nm] = (CM.snap(), P)
+            CM.restore(base_snap[nm][0])
+            R.fp_setup()
+            return base_snap[nm]
+
+        def fits_field(pv):
+            return pv > 0 and (pv.bit_length() + W - 1) // W == FPD
+
+        def model_p(fam, x):
+            if fam == "BN":
+                return 36 * x ** 4 + 36 * x ** 3 + 24 * x ** 2 + 6 * x + 1
+            if fam == "B12":
+                return ((x * x - 2 * x + 1) * (x ** 4 - x * x + 1)) // 3 + x
+            return None
+
+        def naf_sum(entries):
+            # entries of the sparse form are signed bit positions; position 0 cannot carry a sign
+            return sum((1 if e >= 0 else -1) << abs(e) for e in entries)
+
+        def rand_naf(top, weight, sign=1):
+            """an integer whose non-adjacent form has exactly `weight` non-zero digits, the highest at position `top`"""
+            k = weight - 1
+            if k < 0 or top < 2 * k:
+                return None
+            # k positions in [0, top - 2], pairwise (and from `top`) at distance >= 2
+            ys = sorted(rng.sample(range(0, top - 1 - (k - 1)), k)) if k else []
+            v = 1 << top
+            for i, y in enumerate(ys):
+                v += rng.choice((1, -1)) << (y + i)
+            return sign * v
+
+        def find_x(fam, weight, sign=1):
+            """family parameter with the given NAF weight whose modulus p(x) is a prime of exactly the field's digit count"""
+            if fam == "BN":
+                lo, hi = ((FPD - 1) * W - 5) // 4 + 1, (FPB - 6) // 4
+            else:
+                lo, hi = ((FPD - 1) * W + 2) // 6 + 1, (FPB + 1) // 6
+            lo = max(lo, 2 * (weight - 1))
+            if lo > hi:
+                return None
+            for _ in range(6000):
+                x = rand_naf(rng.randint(lo, hi), weight, sign)
+                if x is None:
+                    continue
+                pv = model_p(fam, x)
+                if fits_field(pv) and pv.bit_length() <= FPB and is_probable_prime(pv, 8):
+                    return x
+            return None
+
+        def field_battery(key, allowed, rejected):
+            """arithmetic and conversions at the modulus the library reports, against Python integers"""
+            pm = R.fp_setup()
+            if pm not in allowed:
+                # a refused modulus may be left half-installed (the caller was told); an accepted one may not
+                ctx.check(rejected, key + "|modulus-neither-old-nor-new", {"modulus": hx(pm)})
+                return
+            rm = pow(2, W * FPD, pm)
+            ctx.check(R.mont in (rm, 1), key + "|field-unusable-afterwards", {"what": "fp_set_dig(1) is not R mod p"})
+            if R.mont not in (rm, 1):
+                return
+            fa, fb_, fc = R.fp_new(), R.fp_new(), R.fp_new()
+            try:
+                xv, yv = rng.randrange(1, pm), rng.randrange(1, pm)
+                big_ = rng.getrandbits(FPB + 40)
+                R.bn_put(t_, big_)
+                r = R.call("fp_prime_conv", fa, t_)
+                ctx.check(not r.caught and R.fp_get(fa) == (big_ % pm, True), key + "|field-unusable-afterwards",
+                          {"what": "fp_prime_conv"})
+                r = R.call("fp_set_dig", fa, 5)
+                ctx.check(not r.caught and R.fp_get(fa)[0] == 5 % pm, key + "|field-unusable-afterwards", {"what": "fp_set_dig(5)"})
+                R.fp_put(fa, xv)
+                R.bn_put(t_, 3)
+                r = R.call("fp_prime_back", t_, fa)
+                ctx.check(not r.caught and R.bn_val(t_) == xv, key + "|field-unusable-afterwards", {"what": "fp_prime_back"})
+                R.fp_put(fb_, yv)
+                r = R.call("fp_mul", fc, fa, fb_)
+                ctx.check(not r.caught and R.fp_get(fc) == (xv * yv % pm, True), key + "|field-unusable-afterwards", {"what": "fp_mul"})
+                r = R.call("fp_inv", fc, fa)
+                ctx.check(not r.caught and R.fp_get(fc)[0] == pow(xv, -1, pm), key + "|field-unusable-afterwards", {"what": "fp_inv"})
+                R.fp_put(fa, xv * xv % pm)
+                r = R.call("fp_srt", fc, fa)
+                rt = R.fp_get(fc)[0]
+                ctx.check(not r.caught and r.i == 1 and rt * rt % pm == xv * xv % pm, key + "|field-unusable-afterwards",
+                          {"what": "fp_srt of a square"})
+            finally:
+                for o in (fa, fb_, fc):
+                    R.free(o)
+
+        def reselect_battery(key, bi):
+            """after the hostile call: selecting a built-in curve again works and the group law agrees with the model"""
+            nm, pid = bases[bi % len(bases)]
+            P = base_snap[nm][1]
+            r = R.call("ep_param_set", pid)
+            ctx.check(not r.caught, key + "|library-unusable-afterwards", {"what": "ep_param_set(%s) rejected" % nm})
+            if r.caught:
+                return
+            P2 = R.ep_params()
+            ctx.check(all(P2[f] == P[f] for f in ("p", "a", "b", "gx", "gy", "n")), key + "|library-unusable-afterwards",
+                      {"what": "curve parameters differ after re-selection"})
+            C = WCurve(Fp(P["p"]), P["a"], P["b"], P["n"])
+            kv = rng.randrange(1, P["n"])
+            R.bn_put(t_, kv)
+            g = R.ep_new()
+            try:
+                for fn in ("ep_mul_gen", "ep_mul_basic"):
+                    if fn == "ep_mul_gen":
+                        r = R.call(fn, g, t_)
+                    else:
+                        h = R.ep_new()
+                        R.ep_put(h, P["gx"], P["gy"])
+                        r = R.call(fn, g, h, t_)
+                        R.free(h)
+                    x, y, z, co, can = R.ep_get(g)
+                    got = None if z == 0 else ((x, y) if z == 1 else (C.from_jacob(x, y, z) if co == K["JACOB"] else C.from_homog(x, y, z)))
+                    ctx.check(not r.caught and C.eq(got, C.mul(kv, (P["gx"], P["gy"]))), key + "|library-unusable-afterwards", {"what": fn})
+            finally:
+                R.free(g)
+
+        def judge(key, s0, s1, owners, own_sparse=None, dense_p=None, note=None):
+            """ownership, bounded members, bn headers, equivalent history; returns the set of changed members"""
+            ch = CM.changed(s0, s1)
+            if note and "rejected" in note:
+                ctx.add("parameter_calls_rejected" if note["rejected"] else "parameter_calls_accepted", 1)
+            foreign = [n for n in ch if CM.group[n] not in owners and CM.group[n] != "err"]
+            ctx.check(not foreign, key + "|context-member-not-owned-by-the-call-modified", {"members": foreign[:8], "note": note})
+            bad = CM.bounded_bad(s1)
+            ctx.check(not bad, key + "|context-length-member-out-of-range", {"members": bad[:4]})
+            hb = CM.bn_bad(s0, s1)
+            ctx.check(not hb, key + "|context-integer-header-overwritten", {"members": hb[:4]})
+            if own_sparse is not None:
+                # (both sparse forms are excluded: installing a modulus one way may forget the form kept by the other)
+                excl = ("err", own_sparse, "fp.par", "fp.sps")
+                d0 = [n for n in ch if CM.group[n] not in excl]
+                if d0:
+                    # something outside the sparse form changed: it must be exactly what installing the modulus changes
+                    # (the same integer presented densely - whether or not the library can install it: a modulus it
+                    # refuses half-way is refused half-way in both histories)
+                    CM.restore(s0)
+                    if dense_p is not None and abs(dense_p).bit_length() <= CAP * W:
+                        R.bn_put(u_, dense_p)
+                        R.call("fp_prime_set_dense", u_)
+                    sd = CM.snap()
+                    dd = [n for n in CM.changed(sd, s1) if CM.group[n] not in excl]
+                    ctx.check(not dd, key + "|context-differs-from-equivalent-history",
+                              {"differs_from_dense_installation_in": dd[:8], "differs_from_state_before_in": d0[:8], "note": note})
+                    CM.restore(s1)
+                else:
+                    ctx.ok()
+            return ch
+
+        def par_sps():
+            lp = R.mem(4, 0xEE)
+            r = R.call("fp_prime_get_par_sps", lp)
+            n = R.rd_int(lp)
+            R.free(lp)
+            if r.caught or n < 0 or n > TERMS + 1:
+                return n, None
+            return n, ([ctypes.c_int.from_address(r.r + 4 * i).value for i in range(n)] if r.r else [])
+
+        def sps_get():
+            lp = R.mem(4, 0xEE)
+            r = R.call("fp_prime_get_sps", lp)
+            n = R.rd_int(lp)
+            R.free(lp)
+            if r.caught or n < 0 or n > TERMS + 1:
+                return n, None
+            return n, ([ctypes.c_int.from_address(r.r + 4 * i).value for i in range(n)] if r.r else [])
+
+        # ---- fp_prime_set_pairf(x, family): caller-chosen family parameter
+        def pairf_case(famname, famid, xcls, xv, bi, pv):
+            famcls = famname if famname in ("BN", "B12") else ("other-handled" if famname in HANDLED else
+                                                               ("unhandled" if famname in FAM_NAMES else "unknown-id"))
+
+            def f():
+                s0, P0 = set_base(bi)
+                R.bn_put(a, xv)
+                r = R.call("fp_prime_set_pairf", a, famid)
+                s1 = CM.snap()
+                key = ctx.cur_key
+                ctx.check(R.bn_val(a) == xv, key + "|input-modified")
+                judge(key, s0, s1, FPOWN, own_sparse="fp.par", dense_p=pv, note={"rejected": bool(r.caught)})
+                allowed = [P0["p"]] + ([pv] if pv is not None and fits_field(pv) else [])
+                if not r.caught and famname in HANDLED:
+                    # accepted: the getters describe the parameter that was given
+                    pm = R.fp_setup()
+                    ctx.check(pv is None or pm == pv, key + "|accepted|modulus", {"modulus": hx(pm)})
+                    R.bn_put(t_, 1)
+                    R.call("fp_prime_get_par", t_)
+                    ctx.check(R.bn_val(t_) == xv, key + "|accepted|parameter-getter")
+                    n, ent = par_sps()
+                    ctx.check(ent is not None and 0 <= n <= TERMS and (xv <= 0 or naf_sum(ent) == xv), key + "|accepted|sparse-form",
+                              {"len": n, "entries": ent})
+                field_battery(key, allowed, r.caught)
+                if r.caught:
+                    reselect_battery(key, bi)
+                ctx.check(canary(), key + "|library-unusable-afterwards")
+            guarded("fp_prime_set_pairf|family=%s|%s" % (famcls, xcls), [famname, famid, hx(xv), bi % len(bases)], f, owners=None)
+
+        FAM_NAMES = set(k[3:] for k in FAM)
+        fams = sorted((k[3:], v) for k, v in FAM.items())
+        top_id = max([v for _, v in fams] + [0])
+        fams += [("id=0", 0), ("id=max+1", top_id + 1), ("id=-1", -1), ("id=INT_MAX", 0x7FFFFFFF)]
+        dense_lo = FPB // 8 + 8       # every family but BN (degree 4) and B12 (degree 6) has degree >= 8: p(x) cannot fit
+        weights = [("naf-weight=TERMS-1", TERMS - 1), ("naf-weight=TERMS", TERMS), ("naf-weight=TERMS+1", TERMS + 1),
+                   ("naf-weight=TERMS+2", TERMS + 2), ("naf-weight=max", None)]
+        reps = ctx.n(1, 4)
+        for famname, famid in fams:
+            right = famname in ("BN", "B12")
+            for rep in range(reps):
+                for wname, wt in weights:
+                    # right-size modulus where the family allows it, otherwise a dense parameter whose p(x) cannot fit
+                    for sign in ((1, -1) if famname == "BN" else (1,)):
+                        if not mine():
+                            continue
+                        if right:
+                            hi = ((FPB - 6) // 4) if famname == "BN" else ((FPB + 1) // 6)
+                            w_ = wt if wt is not None else hi // 2 + 1
+                            xv = find_x(famname, w_, sign)
+                            if xv is None:
+                                ctx.add("s10_parameter_search_failed", 1)
+                                continue
+                            pairf_case(famname, famid, ("neg|" if sign < 0 else "") + wname + "|modulus-fits", xv, idx[0], model_p(famname, xv))
+                        else:
+                            top = rng.randint(max(dense_lo, 2 * ((wt or 0) - 1)), FPB - 2)
+                            w_ = wt if wt is not None else top // 2 + 1
+                            xv = rand_naf(top, w_, sign)
+                            if xv is None:
+                                continue
+                            # unhandled / unknown families install nothing; handled ones must refuse the oversized p(x)
+                            pairf_case(famname, famid, wname + "|bits<=FP_BITS", xv, idx[0], None)
+            # degenerate and over-long parameters (p(x) never has the field's size)
+            for xcls, xv in (("zero", 0), ("one", 1), ("minus-one", -1), ("bits=FP_BITS|sparse", (1 << (FPB - 1)) + 1),
+                             ("bits=FP_BITS|all-ones", (1 << FPB) - 1)):
+                if mine():
+                    pairf_case(famname, famid, xcls, xv, idx[0], model_p(famname, xv) if right else None)
+            if famname in HANDLED:
+                # over-long parameter with a family the library knows: p(x) exceeds the field (or the precision)
+                for xcls, xv in (("bits=FP_BITS+1", (1 << FPB) | rng.getrandbits(FPB)), ("bits=2*FP_BITS", rng.getrandbits(2 * FPB) | (1 << (2 * FPB - 1))),
+                                 ("digits=CAP", big(CAP, 3)), ("neg|digits=CAP", -big(CAP, 0))):
+                    if mine():
+                        pairf_case(famname, famid, xcls, xv, idx[0], None)
+        # over-long parameter with a family identifier the library does not handle: no modulus is derived, the parameter
+        # itself is recoded (one directed case per class: the key is narrow on purpose)
+        for xv in ((1 << FPB) + 1, big(CAP, 0)):
+            if mine():
+                pairf_case("id=max+1", top_id + 1, "bits>FP_BITS", xv, idx[0], None)
+
+        # ---- fp_prime_set_pmers(f, len): caller-chosen sparse form
+        import struct
+
+        def pmers_case(cls, form, ln, bi, pv):
+            def f():
+                s0, P0 = set_base(bi)
+                raw = struct.pack("<%di" % len(form), *form)
+                fp_ = R.put(raw)
+                r = R.call("fp_prime_set_pmers", fp_, ln)
+                s1 = CM.snap()
+                key = ctx.cur_key
+                ctx.check(R.get(fp_, len(raw)) == raw, key + "|input-modified")
+                R.free(fp_)
+                judge(key, s0, s1, FPOWN, own_sparse="fp.sps", dense_p=pv, note={"rejected": bool(r.caught)})
+                if not r.caught:
+                    pm = R.fp_setup()
+                    ctx.check(pv is not None and pm == pv, key + "|accepted|modulus", {"modulus": hx(pm)})
+                    n, ent = sps_get()
+                    ctx.check(ent is not None and n == ln and ent == list(form[:ln]), key + "|accepted|sparse-form", {"len": n, "entries": ent})
+                field_battery(key, [P0["p"]] + ([pv] if pv is not None and fits_field(pv) else []), r.caught)
+                if r.caught:
+                    reselect_battery(key, bi)
+                ctx.check(canary(), key + "|library-unusable-afterwards")
+            guarded("fp_prime_set_pmers|%s" % cls, [list(form)[:40], ln, bi % len(bases)], f, owners=None)
+
+        def pm_value(form):
+            # the integer the routine builds: 2^f[len-1] +- 2^|f[i]| (0 < i < len-1) + f[0]
+            v = 1 << form[-1]
+            for e in form[1:-1]:
+                v += (1 << e) if e > 0 else -(1 << -e)
+            return v + form[0]
+
+        def lengthen(form, n):
+            """the same integer written with n terms: +-2^k == +-2^(k+1) -+ 2^k"""
+            form = list(form)
+            guard = 0
+            while len(form) < n and guard < 1000:
+                guard += 1
+                i = rng.randrange(1, len(form) - 1)
+                e = form[i]
+                form[i:i + 1] = [-e, (abs(e) + 1) * (1 if e > 0 else -1)]
+            return form
+        sparse_primes = []
+        if FPB == 256:
+            sparse_primes = [("NIST", [-1, 96, 192, -224, 256]), ("SECG", [-977, -32, 256])]
+        elif FPB == 255:
+            sparse_primes = [("25519", [-19, 255])]
+        for pname, form in sparse_primes:
+            pv = pm_value(form)
+            if not is_probable_prime(pv):
+                continue
+            for n in sorted(set([len(form), len(form) + 1, TERMS - 2, TERMS - 1, TERMS, TERMS + 1, TERMS + 2, 3 * TERMS])):
+                if n < len(form) or len(form) < 3 or not mine():
+                    continue
+                fl = lengthen(form, n)
+                if len(fl) != n or pm_value(fl) != pv:
+                    continue
+                pmers_case("terms=%s" % ("TERMS%+d" % (n - TERMS) if n >= TERMS - 2 else "few"), fl, n, idx[0], pv)
+        base_form = sparse_primes[0][1] if sparse_primes else [-1, 3, FPB]
+        hostile = [("top-exponent=capacity", base_form[:-1] + [CAP * W]), ("top-exponent=capacity-1", base_form[:-1] + [CAP * W - 1]),
+                   ("top-exponent=huge", base_form[:-1] + [1 << 20]), ("top-exponent=INT_MAX", base_form[:-1] + [0x7FFFFFFF]),
+                   ("top-exponent=negative", base_form[:-1] + [-FPB]), ("top-exponent=FP_BITS+W", base_form[:-1] + [FPB + W]),
+                   ("top-exponent=FP_BITS-W", base_form[:-1] + [FPB - W]),
+                   ("middle-exponent=capacity", [base_form[0], CAP * W, base_form[-1]]),
+                   ("middle-exponent=-capacity", [base_form[0], -CAP * W, base_form[-1]]),
+                   ("middle-exponent=zero", [base_form[0], 0, base_form[-1]]),
+                   ("low-term=INT_MAX", [0x7FFFFFFF] + base_form[1:]), ("low-term=zero", [0] + base_form[1:]),
+                   ("single-term", [FPB]), ("single-term|FP_BITS-1", [FPB - 1])]
+        for cls, form in hostile:
+            if not mine():
+                continue
+            pv = None
+            try:
+                pv = pm_value(form) if 0 <= form[-1] < 100000 and all(abs(e) < 100000 for e in form[1:-1]) else None
+            except (ValueError, OverflowError):
+                pv = None
+            if pv is not None and fits_field(pv) and not is_probable_prime(pv):
+                continue        # a composite of the field's size is not a parameter the interface admits: nothing to demand
+            pmers_case(cls, form, len(form), idx[0], pv)
+        # count 0: the array is empty (the quantifier covers all counts n >= 0)
+        if mine():
+            pmers_case("terms=0", [], 0, idx[0], None)
+        # the count exceeds the table but the array given is exactly that long
+        if mine():
+            pmers_case("terms=1000", lengthen(base_form, 12) + [base_form[-1]] * 988, 1000, idx[0], None)
+
+        # ---- fp_prime_set_dense(p): digit counts around the field's
+        def dense_case(cls, pv, bi):
+            def f():
+                s0, P0 = set_base(bi)
+                R.bn_put(a, pv)
+                r = R.call("fp_prime_set_dense", a)
+                s1 = CM.snap()
+                key = ctx.cur_key
+                ctx.check(R.bn_val(a) == pv, key + "|input-modified")
+                judge(key, s0, s1, FPOWN)
+                if not r.caught:
+                    ctx.check(fits_field(pv) and R.fp_setup() == pv, key + "|accepted|modulus")
+                field_battery(key, [P0["p"]] + ([pv] if fits_field(pv) else []), r.caught)
+                if r.caught:
+                    reselect_battery(key, bi)
+            guarded("fp_prime_set_dense|%s" % cls, [hx(pv), bi % len(bases)], f, owners=None)
+        dense_vals = [("digits=FP_DIGS-1", (1 << ((FPD - 1) * W)) - 1), ("digits=FP_DIGS+1", (1 << (FPD * W)) + 1 + (1 << 7)),
+                      ("digits=1", 7), ("zero", 0), ("digits=CAP", big(CAP, 0) - 2), ("digits=2*FP_DIGS", (1 << (2 * FPD * W)) - 1)]
+        for pname, form in sparse_primes:
+            dense_vals.append(("digits=FP_DIGS|prime", pm_value(form)))
+        for fam_ in ("BN", "B12"):
+            if mine():
+                xv = find_x(fam_, 5)
+                if xv is not None:
+                    dense_case("digits=FP_DIGS|prime", model_p(fam_, xv), idx[0])
+        for cls, pv in dense_vals:
+            if mine():
+                dense_case(cls, pv, idx[0])
+
+        # ---- parameter identifiers: every enumerator of the headers (most are for other field sizes) and values outside
+        def id_case(fn, owners, cls, pid, bi, slow=False):
+            def f():
+                s0, P0 = set_base(bi)
+                r = R.call(fn, pid)
+                s1 = CM.snap()
+                key = ctx.cur_key
+                judge(key, s0, s1, owners, note={"rejected": bool(r.caught)})
+                if r.caught:
+                    reselect_battery(key, bi)
+                ctx.check(canary(), key + "|library-unusable-afterwards")
+            guarded("%s|%s" % (fn, cls), [fn, pid, bi % len(bases)], f, owners=None, budget=600 if slow else None)
+        CURVE = FPOWN + ("ep", "ep2", "ep3", "ep4", "ep8", "gt")
+        idfns = [("fp_param_set", FPOWN, "relic_fp.h", False), ("ep_param_set", CURVE, "relic_ep.h", False),
+                 ("ed_param_set", FPOWN + ("ed",), "relic_ed.h", False), ("eb_param_set", ("fb", "eb"), "relic_eb.h", True),
+                 ("fb_param_set", ("fb",), "relic_fb.h", True)]
+        for fn, owners, hdr, slow in idfns:
+            if not R.has(fn):
+                continue
+            enum = sorted((v, k) for k, v in R.EH.get(hdr, {}).items() if not k.startswith(("EP_", "RLC_")) and "_" in k)
+            known = [v for v, _ in enum]
+            outside = [("id=0", 0), ("id=-1", -1), ("id=max+1", (max(known) if known else 0) + 1), ("id=INT_MAX", 0x7FFFFFFF),
+                       ("id=INT_MIN", -0x80000000)]
+            for cls, pid in outside:
+                if mine():
+                    id_case(fn, owners, cls, pid, idx[0])
+            if slow and ctx.quick:
+                continue        # a supported binary-field identifier recomputes every table (seconds): thorough tier only
+            pick = enum if not ctx.quick else rng.sample(enum, min(len(enum), 10))
+            for v, k in pick:
+                if mine():
+                    id_case(fn, owners, "id=enumerator", v, idx[0], slow)
+        if R.has("ep2_curve_set_twist") and len(bases) > 1:
+            for ty in (-1, 0, K.get("RLC_EP_DTYPE", 1), K.get("RLC_EP_MTYPE", 2), 3, 0x7FFFFFFF):
+                if mine():
+                    id_case("ep2_curve_set_twist", ("ep2", "gt"), "type=%s" % ("valid" if ty in (1, 2) else "invalid"), ty, 1)
+
+        # ---- binary-field polynomial by exponents: fb_poly_set_trino(a), fb_poly_set_penta(a, b, c)
+        if R.has("fb_poly_set_trino") and "RLC_FB_BITS" in K:
+            FBB, FBD = K["RLC_FB_BITS"], K["RLC_FB_DIGS"]
+
+            def fb_case(fn, cls, args):
+                def f():
+                    s0, P0 = set_base(0)
+                    r = R.call(fn, *args)
+                    s1 = CM.snap()
+                    key = ctx.cur_key
+                    judge(key, s0, s1, ("fb",), note={"rejected": bool(r.caught)})
+                    CM.restore(s0)
+                    ctx.check(canary(), key + "|library-unusable-afterwards")
+                guarded("%s|%s" % (fn, cls), [fn, list(args)], f, owners=None, budget=600)
+            # positions that exist in the digit vector but not in the field, then positions outside the vector
+            inside = sorted(set([FBB, FBB + 1, FBD * W - 1]) & set(range(FBB, FBD * W)))
+            for e in inside:
+                cls = "exponent-inside-digit-vector-outside-field"
+                if mine():
+                    fb_case("fb_poly_set_trino", cls, (e,))
+                if mine():
+                    fb_case("fb_poly_set_penta", cls, (e, 7, 5))
+                if mine():
+                    fb_case("fb_poly_set_penta", cls, (12, 7, e))
+            cls = "exponent-outside-digit-vector"
+            for args in ((-1,), (FBD * W,)):
+                if mine():
+                    fb_case("fb_poly_set_trino", cls, args)
+            for args in ((12, 7, -1), (FBD * W, 7, 5)):
+                if mine():
+                    fb_case("fb_poly_set_penta", cls, args)
+
+        # ---- seeding the generator: the state lives in the context, the seed length is the caller's
+        if R.has("rand_seed") and "rand.rand" in CM.group:
+            rsz = CM.size_of["rand.rand"]
+            for L in (0, 1, (rsz - 1) // 2 - 1, (rsz - 1) // 2, (rsz - 1) // 2 + 1, rsz - 1, rsz, rsz + 1, 4 * rsz + 3):
+                if not mine():
+                    continue
+
+                def f(L=L):
+                    s0, P0 = set_base(0)
+                    sd_ = R.put(bytes(rng.getrandbits(8) for _ in range(L)))
+                    r = R.call("rand_seed", sd_, L)
+                    s1 = CM.snap()
+                    R.free(sd_)
+                    judge(ctx.cur_key, s0, s1, ("rand",), note={"rejected": bool(r.caught)})
+                    out = R.mem(40, 0xEE)
+                    r2 = R.call("rand_bytes", out, 40)
+                    ctx.check(not r2.caught, ctx.cur_key + "|library-unusable-afterwards", {"what": "rand_bytes"})
+                    R.free(out)
+                guarded("rand_seed|len=%s" % ("state%+d" % (L - rsz) if L >= rsz - 1 else ("half-state%+d" % (L - (rsz - 1) // 2) if L > 1 else str(L))),
+                        [L], f, owners=None)
+        for o in (t_, u_):
+            R.free(o)
+        ctx.note("context_monitor", ["sizeof(ctx_t)=%d" % CM.size, "members=%d" % len(CM.fields), "RLC_TERMS=%d" % TERMS]
+                 + ["base=" + nm for nm, _ in bases])
+
+    only = os.environ.get("VF_C08_SECTIONS")        # development aid: e.g. VF_C08_SECTIONS=3,10
+    for i, s in enumerate((s1, s2, s3, s4, s5, s6, s7, s8, s9, s10)):
+        if only is None or str(i + 1) in only.split(","):
+            s()
     ctx.note("functions_exercised", sorted(R.fn_seen))
     ctx.note("error_codes_seen", {str(k): v for k, v in R.err_codes.items()})
+
+
+class _CtxMon(object):
+    """Raw view of the library context through the member table of shim/vf_x_C08.c (ALLOC=AUTO builds only: the
+    context then holds no heap pointers, so a snapshot can be written back between two calls)."""
+
+    def __init__(self, R):
+        self.R = R
+        self.ok = False
+        self.why = ""
+        S = R.S
+        try:
+            S.vf_x08_field_name.restype = ctypes.c_char_p
+            for f in ("off", "size", "kind", "aux"):
+                getattr(S, "vf_x08_field_" + f).restype = ctypes.c_longlong
+            S.vf_x08_sizeof_ctx.restype = ctypes.c_longlong
+            S.vf_x08_terms.restype = ctypes.c_longlong
+        except AttributeError:
+            self.why = "libvfx_C08.so not built for this configuration"
+            return
+        if R.dyn:
+            self.why = "ALLOC=DYNAMIC"
+            return
+        self.size = S.vf_x08_sizeof_ctx()
+        self.terms = S.vf_x08_terms()
+        self.fields = []
+        self.group = {}
+        self.size_of = {}
+        self.off_of = {}
+        i = 0
+        while True:
+            n = S.vf_x08_field_name(i)
+            if n is None:
+                break
+            g, m = n.decode().rsplit(".", 1)
+            self.fields.append((m, g, S.vf_x08_field_off(i), S.vf_x08_field_size(i), S.vf_x08_field_kind(i), S.vf_x08_field_aux(i)))
+            self.group[m] = g
+            self.size_of[g + "." + m] = S.vf_x08_field_size(i)
+            self.group[g + "." + m] = g
+            self.off_of[m] = S.vf_x08_field_off(i)
+            i += 1
+        self.ok = self.size == R.K.get("sizeof_ctx_t", self.size) and len(self.fields) > 10
+        if not self.ok:
+            self.why = "layout table inconsistent"
+
+    def snap(self):
+        return ctypes.string_at(self.R.ctx, self.size)
+
+    def restore(self, s):
+        ctypes.memmove(self.R.ctx, s, self.size)
+
+    def changed(self, a, b):
+        """names of the members whose bytes differ (padding between members is not attributed to anything)"""
+        if a == b:
+            return []
+        return [m for (m, g, off, sz, kind, aux) in self.fields if a[off:off + sz] != b[off:off + sz]]
+
+    def bounded_bad(self, s):
+        out = []
+        for (m, g, off, sz, kind, aux) in self.fields:
+            if kind == 2:
+                v = int.from_bytes(s[off:off + sz], "little", signed=True)
+                if v < 0 or v > aux:
+                    out.append({"member": m, "value": v, "table_entries": aux + 1})
+        return out
+
+    def headers(self):
+        """(length members, integer headers) read straight from the live context"""
+        R = self.R
+        lens, bns = [], []
+        for (m, g, off, sz, kind, aux) in self.fields:
+            if kind == 2:
+                lens.append((m, aux, ctypes.c_int.from_address(R.ctx + off).value))
+            elif kind == 1:
+                for e in range(sz // R.bn_sz):
+                    o = R.ctx + off + e * R.bn_sz
+                    bns.append((m, e, R.rd_sz(o + R.bn_off_alloc), R.rd_sz(o + R.bn_off_used), R.rd_int(o + R.bn_off_sign)))
+        return lens, bns
+
+    def headers_bad(self, ref, cur):
+        for (m, aux, v) in cur[0]:
+            if v < 0 or v > aux:
+                return ("context-length-member-out-of-range", {"member": m, "value": v, "table_entries": aux + 1})
+        for (m0, e0, al0, us0, sg0), (m, e, al, us, sg) in zip(ref[1], cur[1]):
+            if al != al0 or (al and us > al) or sg not in (0, 1):
+                return ("context-integer-header-overwritten", {"member": m, "element": e, "alloc_at_first_case": al0, "alloc": al, "used": us, "sign": sg})
+        return None
+
+    def bn_bad(self, a, b):
+        """integer members keep their header: capacity field unchanged, used <= capacity, sign is one of the two codes"""
+        R = self.R
+        out = []
+        for (m, g, off, sz, kind, aux) in self.fields:
+            if kind != 1 or a[off:off + sz] == b[off:off + sz]:
+                continue
+            for e in range(sz // R.bn_sz):
+                o = off + e * R.bn_sz
+                al0 = int.from_bytes(a[o + R.bn_off_alloc:o + R.bn_off_alloc + 8], "little")
+                al1 = int.from_bytes(b[o + R.bn_off_alloc:o + R.bn_off_alloc + 8], "little")
+                us = int.from_bytes(b[o + R.bn_off_used:o + R.bn_off_used + 8], "little")
+                sg = int.from_bytes(b[o + R.bn_off_sign:o + R.bn_off_sign + 4], "little", signed=True)
+                if al0 != al1 or us > al1 or sg not in (0, 1):
+                    out.append({"member": m, "element": e, "alloc_before": al0, "alloc": al1, "used": us, "sign": sg})
+        return out
 
 
 def _lencls(L, dl):
